@@ -18,6 +18,7 @@ from ..machines.packages import NS, SAMPLES
 
 STYLE_NS = NS["style"]
 OFFICE = NS["office"]
+TABLE_NS = "urn:oasis:names:tc:opendocument:xmlns:table:1.0"
 STD = sorted(FAMILY_ODF_STD)
 NUMBER = ["date", "number", "percentage", "time", "boolean", "currency"]
 OTHER = ["list", "master-page", "page-layout", "font-face"]
@@ -341,9 +342,150 @@ def numbering_task(family):
     return nev, fails, {"numbering"}
 
 
+# ------------------------------------------------------------------ document-level style operations
+DOCOPS_DOCS = [("template", "spreadsheet"), ("file", "simple_table.ods"), ("template", "text"), ("file", "example.odt")]
+
+
+def docops_alphabet(doc):
+    names = [t.name for t in doc.body.get_tables()][:3]
+    ops_ = [("page_break",), ("weak_page_break",), ("delete_styles",), ("insert", "paragraph", "A"), ("insert_auto", "table")]
+    for i, n in enumerate(names[:2]):
+        ops_ += [("displayed", i, False), ("displayed", n, True)]
+    if len(names) > 2:
+        ops_ += [("displayed", 2, False)]
+    return ops_
+
+
+def table_view(doc):
+    """Per table: (name, style name, display flag read independently from the automatic style)."""
+    out = []
+    cont = containers(doc)
+    for t in doc.body.get_tables():
+        sname = t._Element__element.get("{%s}style-name" % TABLE_NS)
+        flag = None
+        matches = 0
+        for key in (("content", "automatic-styles"), ("styles", "styles"), ("styles", "automatic-styles")):
+            c = cont.get(key)
+            if c is None or sname is None:
+                continue
+            for e in c:
+                if isinstance(e.tag, str) and e.get("{%s}name" % STYLE_NS) == sname and e.get("{%s}family" % STYLE_NS) == "table":
+                    matches += 1
+                    for pr in e:
+                        v = pr.get("{%s}display" % TABLE_NS)
+                        if v is not None:
+                            flag = v
+        out.append((t.name, sname, matches, flag))
+    return out
+
+
+def docops_task(seed):
+    """Every sequence of document-level style operations up to depth 3."""
+    fails = []
+    nev = 0
+    doc0 = new_doc(seed)
+    alpha = docops_alphabet(doc0)
+    depth = 3
+
+    def rec(hist, site, symptom, exp, act):
+        fails.append({"signature": f"site=Document.{site}; class=docops; symptom={symptom}",
+                      "replay": {"replay_module": "mc.checks.c13", "history": [["docops"] + list(seed)] + [list(h) for h in hist], "oracle": symptom, "expected": exp, "actual": act}})
+
+    def apply(doc, op, hist):
+        name = op[0]
+        before = table_view(doc)
+        try:
+            if name == "page_break":
+                doc.add_page_break_style()
+                st = doc.get_style("paragraph", "odfdopagebreak")
+                props = (st.get_properties() or {}) if st is not None else {}
+                if st is None or props.get("fo:break-after") != "page":
+                    rec(hist, "add_page_break_style", "page-break-style-missing", "fo:break-after=page", None if st is None else props)
+                x1 = (etree.tostring(doc.styles.root._Element__element), etree.tostring(doc.content.root._Element__element))
+                doc.add_page_break_style()
+                x2 = (etree.tostring(doc.styles.root._Element__element), etree.tostring(doc.content.root._Element__element))
+                if x1 != x2:
+                    rec(hist, "add_page_break_style", "not-idempotent", "second call changes nothing", "changed")
+            elif name == "weak_page_break":
+                # a style of that name without the break property: add_page_break_style must replace it, not duplicate
+                doc.insert_style(Style("paragraph", name="odfdopagebreak"))
+            elif name == "delete_styles":
+                named = sum(1 for c in containers(doc).values() for e in c if isinstance(e.tag, str) and e.get("{%s}name" % STYLE_NS) is not None)
+                n = doc.delete_styles()
+                left = [(ln, etree.QName(e).localname, e.get("{%s}name" % STYLE_NS)) for (pn, ln), c in containers(doc).items() for e in c
+                        if isinstance(e.tag, str) and e.get("{%s}name" % STYLE_NS) is not None]
+                if left:
+                    rec(hist, "delete_styles", "named-styles-left", [], left[:5])
+                if n != named:
+                    rec(hist, "delete_styles", "wrong-count", named, n)
+            elif name == "insert":
+                st = Style(op[1], name=op[2])
+                r = doc.insert_style(st)
+                f = doc.get_style(op[1], r)
+                if f is None or f._Element__element is not st._Element__element:
+                    rec(hist, "insert_style", "style-not-found-again", r, None if f is None else f.serialize()[:80])
+            elif name == "insert_auto":
+                existing = {e.get("{%s}name" % STYLE_NS) for c in containers(doc).values() for e in c if isinstance(e.tag, str)}
+                st = Style(op[1])
+                r = doc.insert_style(st, automatic=True)
+                if r in existing:
+                    rec(hist, "insert_style", "generated-name-collides", "a new name", r)
+                f = doc.get_style(op[1], r)
+                if f is None or f._Element__element is not st._Element__element:
+                    rec(hist, "insert_style", "style-not-found-again", r, None if f is None else f.serialize()[:80])
+            elif name == "displayed":
+                tbl, flag = op[1], op[2]
+                doc.set_table_displayed(tbl, flag)
+                after = table_view(doc)
+                idx = tbl if isinstance(tbl, int) else [t[0] for t in before].index(tbl)
+                if doc.get_table_displayed(tbl) != flag:
+                    rec(hist, "set_table_displayed", "flag-not-read-back", flag, doc.get_table_displayed(tbl))
+                if after[idx][2] != 1 or after[idx][3] != ("true" if flag else "false"):
+                    rec(hist, "set_table_displayed", "table-style-wrong", "exactly one table style with the flag", list(after[idx]))
+                for i, (b, a) in enumerate(zip(before, after)):
+                    if i != idx and (b != a or a[1] == after[idx][1]):
+                        rec(hist, "set_table_displayed", "other-table-changed", list(b), list(a))
+                        break
+                # also after save + reload
+                buf = io.BytesIO()
+                doc.save(buf)
+                d2 = Document(io.BytesIO(buf.getvalue()))
+                if d2.get_table_displayed(tbl) != flag or table_view(d2) != after:
+                    rec(hist, "set_table_displayed", "lost-after-reload", after, table_view(d2))
+        except Exception as e:
+            rec(hist, {"page_break": "add_page_break_style", "displayed": "set_table_displayed", "delete_styles": "delete_styles"}.get(name, "insert_style"),
+                f"raises:{type(e).__name__}", "no exception", str(e)[:120])
+            return False
+        dups = duplicates(doc)
+        if dups:
+            rec(hist, {"page_break": "add_page_break_style", "displayed": "set_table_displayed", "delete_styles": "delete_styles"}.get(name, "insert_style"),
+                "duplicate-style", [], dups[:4])
+            return False
+        return True
+
+    for d in range(1, depth + 1):
+        for hist in itertools.product(alpha, repeat=d):
+            # judged at the last step only; histories whose prefix already failed are cut
+            doc = new_doc(seed)
+            ok = True
+            pre = len(fails)
+            for i, op in enumerate(hist):
+                ok = apply(doc, op, hist[: i + 1])
+                if i < len(hist) - 1:
+                    if len(fails) > pre:
+                        del fails[pre:]
+                        ok = False
+                if not ok:
+                    break
+            nev += 1
+    return nev, fails, {"docops:" + o[0] for o in alpha}
+
+
 def dispatch(t):
     if t[0] == "merge":
         return merge_task(t[1])
+    if t[0] == "docops":
+        return docops_task(t[1])
     if t[0] == "numbering":
         return numbering_task(t[1])
     return work(t[1])
@@ -362,6 +504,7 @@ def run(prop, tier, vseed):
     tasks += [("w", (seed, first)) for seed in docs2 for first in reps]
     tasks += [("merge", seed) for seed in MERGE_DOCS]
     tasks += [("numbering", fam) for fam in ("paragraph", "text", "table-cell", "graphic")]
+    tasks += [("docops", seed) for seed in DOCOPS_DOCS]
     nproc = int(os.environ.get("VERIF_NPROC", "0")) or min(16, os.cpu_count() or 1)
     nev = 0
     failures = []
@@ -379,7 +522,7 @@ def run(prop, tier, vseed):
         "distinct_nontrivial": len(classes),
         "alphabet_size": len(alls),
         "families": FAMILIES,
-        "rule": "every insert_style(family x name in {None, A, B, odfdo_auto_7} x {common, automatic, default}) inside its documented domain alone (plus save+reload) on 5 documents, every ordered pair (representative first op, any second op), merge_styles_from between every pair of documents; independent lxml walk over office:styles / automatic-styles / master-styles / font-face-decls of both parts; distinct_nontrivial = distinct (family class, naming, kind, relation to the first op) classes",
+        "rule": "every insert_style(family x name in {None, A, B, odfdo_auto_7} x {common, automatic, default}) inside its documented domain alone (plus save+reload) on 5 documents, every ordered pair (representative first op, any second op), merge_styles_from between every pair of documents (union, other's definition wins for every family+name, source unchanged); every sequence up to depth 3 of {add_page_break_style, a weak style of that name, delete_styles, insert_style, set_table_displayed by index / by name} on 4 documents; independent lxml walk over office:styles / automatic-styles / master-styles / font-face-decls of both parts; distinct_nontrivial = distinct (family class, naming, kind, relation to the first op) classes",
         "samples": [{"doc": "text", "history": [["paragraph", None, True, False], ["paragraph", "odfdo_auto_1", True, False]]}],
         "exhaustive": True,
     }
@@ -390,7 +533,9 @@ def run(prop, tier, vseed):
 def replay(rp):
     hist = rp["history"]
     seed = tuple(hist[0])
-    if hist[0][0] == "numbering":
+    if hist[0][0] == "docops":
+        n, f, _ = docops_task(tuple(hist[0][1:]))
+    elif hist[0][0] == "numbering":
         n, f, _ = numbering_task(hist[0][1])
     elif len(hist) > 1 and hist[1][0] == "merge":
         n, f, _ = merge_task(seed)
